@@ -12,16 +12,19 @@ type fail = { tag : string; msg : string }
 let fails : (string, int) Hashtbl.t = Hashtbl.create 16
 let counts : (string, int) Hashtbl.t = Hashtbl.create 16
 let bump tbl k = Hashtbl.replace tbl k (1 + (try Hashtbl.find tbl k with Not_found -> 0))
-let max_report = ref 20
+let max_report = ref 8
 let reported : (string, int) Hashtbl.t = Hashtbl.create 16
 let nontrivial = ref 0
 let handlers : (string, Sexp.t list -> fail list) Hashtbl.t = Hashtbl.create 16
 
 let report lineno line (f : fail) =
   bump fails f.tag;
-  let c = try Hashtbl.find reported f.tag with Not_found -> 0 in
+  (* the report limit applies per kind of failure (tag + beginning of the message), so that a
+     frequent known finding cannot hide a different failure of the same property *)
+  let key = f.tag ^ "|" ^ (if String.length f.msg > 90 then String.sub f.msg 0 90 else f.msg) in
+  let c = try Hashtbl.find reported key with Not_found -> 0 in
   if c < !max_report then begin
-    Hashtbl.replace reported f.tag (c + 1);
+    Hashtbl.replace reported key (c + 1);
     let line = if String.length line > 1500 then String.sub line 0 1500 ^ "..." else line in
     Printf.printf "FAIL %s line=%d %s :: %s\n" f.tag lineno f.msg line
   end
